@@ -286,7 +286,7 @@ func CheckC11(p *Pkg, e *Env, r *res.Result) {
 		for _, op := range p.Ops {
 			for vi, creds := range vectors {
 				h.WrongSchemeWord = []string{"", "", "Basic", "Token"}[vi%4]
-				req := httptest.NewRequest(op.Method, "http://h.example"+p.BasePath+concretePath(op.Template), nil)
+				req := httptest.NewRequest(op.Method, "http://h.example"+escapeForURL(p.BasePath+concretePath(op.Template)), nil)
 				// every other vector of a body-carrying method also has a form-encoded body
 				// whose fields are named like the query api keys and hold the *opposite*
 				// credential: a credential counts only in its declared location
@@ -302,7 +302,7 @@ func CheckC11(p *Pkg, e *Env, r *res.Result) {
 						}
 					}
 					if len(form) > 0 {
-						req = httptest.NewRequest(op.Method, "http://h.example"+p.BasePath+concretePath(op.Template), strings.NewReader(form.Encode()))
+						req = httptest.NewRequest(op.Method, "http://h.example"+escapeForURL(p.BasePath+concretePath(op.Template)), strings.NewReader(form.Encode()))
 						req.Header.Set("Content-Type", "application/x-www-form-urlencoded")
 						r.Label("request:decoy-form-body")
 					}
@@ -524,7 +524,7 @@ func CheckC16(p *Pkg, e *Env, r *res.Result) {
 					}
 				}
 				for vi, creds := range vecs {
-					req := httptest.NewRequest(op.Method, "http://h.example"+p.BasePath+concretePath(op.Template), nil)
+					req := httptest.NewRequest(op.Method, "http://h.example"+escapeForURL(p.BasePath+concretePath(op.Template)), nil)
 					h.Apply(req, creds)
 					// a declared OPTIONS operation is an operation like any other, also when the
 					// request looks like a browser's preflight
@@ -549,7 +549,7 @@ func CheckC16(p *Pkg, e *Env, r *res.Result) {
 							if op2.Template == op.Template {
 								continue
 							}
-							req2 := httptest.NewRequest(op2.Method, "http://h.example"+p.BasePath+concretePath(op2.Template), nil).WithContext(ctx)
+							req2 := httptest.NewRequest(op2.Method, "http://h.example"+escapeForURL(p.BasePath+concretePath(op2.Template)), nil).WithContext(ctx)
 							all := map[string]refmodel.Cred{}
 							for _, n := range names {
 								all[n] = refmodel.CredValid
@@ -564,7 +564,7 @@ func CheckC16(p *Pkg, e *Env, r *res.Result) {
 				}
 				// CORS preflight / undeclared method on a declared path
 				if op.PathItem.Op("OPTIONS") == nil {
-					req := httptest.NewRequest("OPTIONS", "http://h.example"+p.BasePath+concretePath(op.Template), nil)
+					req := httptest.NewRequest("OPTIONS", "http://h.example"+escapeForURL(p.BasePath+concretePath(op.Template)), nil)
 					// with cors on (and a CORS handler installed, as here) the path's own preflight
 					// answers, whatever other template could also match the path; with cors off a
 					// less specific template that declares OPTIONS may take the request (C03's
